@@ -172,6 +172,13 @@ def _stat_chunk(arg):
     EoN = _F["EoN"]
     G = netepi.build_graph(n, w, g)
     nodes = list(range(1, n + 1))
+    if weighted:
+        # a contact whose weight is exactly 0 never transmits: the pairs that are not contacts of the chain are
+        # present in the network handed over, with transmission weight 0
+        for a in nodes:
+            for b in nodes:
+                if a < b and not G.has_edge(a, b):
+                    G.add_edge(a, b, w=0.0)
     I0 = [u for u in nodes if st0[u - 1] == "I"]
     R0 = [u for u in nodes if st0[u - 1] == "R"]
     random.seed(seed)
